@@ -47,7 +47,8 @@ def parseKind : String → Option Kind
 
 def showSent (a : Agent) (k : Kind) (l : List Sent) : String :=
   "[" ++ " ".intercalate ((l.filter (fun s => a.connected s.peer)).map
-    (fun s => s!"{s.peer}:{kindName k}.{s.what}:{s.id}")) ++ "]"
+    (fun s => if s.payload.isEmpty then s!"{s.peer}:{kindName k}.{s.what}:{s.id}"
+              else s!"{s.peer}:{kindName k}.{s.what}:{s.id}:{s.payload}")) ++ "]"
 
 def insertKV' (e : Nat × Entry) : List (Nat × Entry) → List (Nat × Entry)
   | [] => [e]
@@ -111,20 +112,22 @@ def step (cleanAll : Bool) (s : St) (line : String) : St × String :=
     match parseKind k with
     | some k => let (a, l) := s.a.relayOpen k p.toNat! i.toNat! n.toNat!; agentOut s a k l
     | none => (s, "bad-op")
-  | ["ack", k, p, i] =>
+  | "ack" :: k :: p :: i :: rest =>
     match parseKind k with
-    | some k => optOut s k (s.a.relayAck k p.toNat! i.toNat!)
+    | some k => optOut s k (s.a.relayAck k p.toNat! i.toNat! (rest.headD "010203"))
     | none => (s, "bad-op")
-  | ["err", k, p, i] =>
+  | "err" :: k :: p :: i :: rest =>
     match parseKind k with
-    | some k => optOut s k (s.a.relayErr k p.toNat! i.toNat!)
+    | some k => optOut s k (s.a.relayErr k p.toNat! i.toNat! (rest.headD "010203"))
     | none => (s, "bad-op")
-  | ["data", k, p, i] =>
+  | "data" :: k :: p :: i :: rest =>
+    let hex := rest.headD "010203"
+    let fl := (rest.drop 1).headD "0"
     match parseKind k with
     | some .tcp =>
-      let (n, l, x) := (Node.mk s.a s.ex).data p.toNat! i.toNat! noKey
+      let (n, l, x) := (Node.mk s.a s.ex).data p.toNat! i.toNat! noKey (hex ++ "/f" ++ fl)
       nodeOut s n.a n.ex .tcp l x
-    | some k => optOut s k (s.a.relayData k p.toNat! i.toNat!)
+    | some k => optOut s k (s.a.relayData k p.toNat! i.toNat! (hex ++ "/f0"))   -- UDP/ICMP relays set no flags
     | none => (s, "bad-op")
   | ["close", k, p, i] =>
     match parseKind k with
@@ -167,12 +170,14 @@ structure SpecSt where
   peers : List Nat := []
   collided : Bool := false   -- two live tunnels of one table shared a bare stream id at some point
 
-def parseSent (out : String) : List (Nat × String × Nat) :=
+/-- frames sent: (peer, kind.what, stream id, payload/flags token or "") -/
+def parseSent (out : String) : List (Nat × String × Nat × String) :=
   match out.splitOn "sent=[" with
   | [_, rest] =>
     match rest.splitOn "]" with
     | inner :: _ => (tokens inner).filterMap (fun tok => match tok.splitOn ":" with
-        | [p, w, i] => some (p.toNat!, w, i.toNat!)
+        | [p, w, i] => some (p.toNat!, w, i.toNat!, "")
+        | [p, w, i, pl] => some (p.toNat!, w, i.toNat!, pl)
         | _ => none)
     | [] => []
   | _ => []
@@ -220,11 +225,14 @@ def expectFwd (s : SpecSt) (k : String) (p i : Nat) (allowUp : Bool) : Option (N
 def tag (s : SpecSt) (what : String) : String :=
   if s.collided then "c16-collision-" ++ what else "c16-" ++ what
 
-def checkFwd (s : SpecSt) (k what : String) (exp : Option (Nat × Nat)) (sent : List (Nat × String × Nat)) : Option String :=
+/-- `pl`: the payload/flags token the forwarded frame must carry (byte-exact relaying). -/
+def checkFwd (s : SpecSt) (k what : String) (exp : Option (Nat × Nat)) (sent : List (Nat × String × Nat × String))
+    (pl : String := "") : Option String :=
   match exp with
   | some (q, j) =>
     if !s.peers.contains q then (if sent.isEmpty then none else some (tag s "misrouted"))
-    else if sent == [(q, k ++ "." ++ what, j)] then none
+    else if sent == [(q, k ++ "." ++ what, j, pl)] then none
+    else if sent.map (fun x => (x.1, x.2.1, x.2.2.1)) == [(q, k ++ "." ++ what, j)] then some "c16-payload-altered"
     else if sent.isEmpty then some (tag s "dropped") else some (tag s "misrouted")
   | none => if sent.isEmpty then none else some (tag s "phantom")
 
@@ -238,7 +246,7 @@ def removeLeg (s : SpecSt) (k : String) (p i : Nat) (allowUp : Bool) : SpecSt :=
 
 /-- close / reset from `(p,i)`: a relayed tunnel is torn down and the close travels on; otherwise the
     exit tunnel of exactly that peer and id is closed; nothing else may be touched. -/
-def specClose (s : SpecSt) (k what : String) (p i : Nat) (sent : List (Nat × String × Nat)) (x : List String) : SpecSt × String :=
+def specClose (s : SpecSt) (k what : String) (p i : Nat) (sent : List (Nat × String × Nat × String)) (x : List String) : SpecSt × String :=
   match expectFwd s k p i true with
   | some e =>
     let s' := removeLeg s k p i true
@@ -254,7 +262,7 @@ def specClose (s : SpecSt) (k what : String) (p i : Nat) (sent : List (Nat × St
     match s.xlive.find? (fun t => t.peer == p && t.id == i) with
     | some t =>
       let s' := { s with xlive := s.xlive.filter (· != t) }
-      let wantSent := if s.peers.contains p then [(p, "tcp.close", i)] else []
+      let wantSent := if s.peers.contains p then [(p, "tcp.close", i, "")] else []
       (s', if sent == wantSent && (x == [s!"dstclosed:{t.serial}"] || s.collided) then "ok" else "fail " ++ tag s "exit-close-misdelivered")
     | none =>
       if s.xlive.any (fun t => t.id == i) then
@@ -287,7 +295,7 @@ def specStep (s : SpecSt) (l : String) : SpecSt × String :=
         (s, if sent.all (fun x => x.1 == p) then "ok" else "fail " ++ tag s "misrouted")
       else
         match sent with
-        | [(q, w, j)] =>
+        | [(q, w, j, _)] =>
           if q == n && w == k ++ ".open" then
             let t : Tun := ⟨k, p, i, n, j⟩
             -- a re-used (peer,id) replaces the old tunnel of that leg; it is a bare-id collision too
@@ -295,15 +303,15 @@ def specStep (s : SpecSt) (l : String) : SpecSt × String :=
             ({ s with live := t :: live, collided := s.collided || clash k s.live t }, "ok")
           else (s, "fail " ++ tag s "misrouted")
         | _ => (s, "fail " ++ tag s "dropped")
-    | ["ack", k, p, i] =>
+    | "ack" :: k :: p :: i :: rest =>
       let (p, i) := (p.toNat!, i.toNat!)
-      match checkFwd s k "ack" (expectFwd s k p i false) sent with
+      match checkFwd s k "ack" (expectFwd s k p i false) sent (rest.headD "010203") with
       | some e => (s, "fail " ++ e)
       | none => (s, "ok")
     | ["xopen", p, i] =>
       let (p, i) := (p.toNat!, i.toNat!)
       if !s.peers.contains p then (s, "ok") else
-      if sent == [(p, "tcp.ack", i)] then
+      if sent == [(p, "tcp.ack", i, "")] then
         -- two exit records under one bare id = the handler-level collision of the known finding
         let dup := s.xlive.any (fun t => t.id == i)
         ({ s with xlive := ⟨p, i, s.xnext⟩ :: s.xlive.filter (fun t => t.id != i || t.peer != p), xnext := s.xnext + 1,
@@ -332,12 +340,13 @@ def specStep (s : SpecSt) (l : String) : SpecSt × String :=
             (if sent.isEmpty && x.isEmpty then (s, "ok")
              else ({ s with xlive := s.xlive.filter (fun t => t.id != i) }, "fail c16-collision-exit-wrong-peer"))
           else (s, if sent.isEmpty && x.isEmpty then "ok" else "fail " ++ tag s "phantom")
-    | ["data", k, p, i] =>
+    | "data" :: k :: p :: i :: rest =>
       let (p, i) := (p.toNat!, i.toNat!)
       let x := parseX out
+      let pl := rest.headD "010203" ++ "/f" ++ (if k == "tcp" then (rest.drop 1).headD "0" else "0")
       match expectFwd s k p i true with
       | some e =>
-        match checkFwd s k "data" (some e) sent with
+        match checkFwd s k "data" (some e) sent pl with
         | some err => (s, "fail " ++ err)
         | none => (s, if x.isEmpty then "ok" else "fail " ++ tag s "relay-frame-reached-exit")
       | none =>
@@ -355,9 +364,9 @@ def specStep (s : SpecSt) (l : String) : SpecSt × String :=
             (if sent.isEmpty && x.isEmpty then (s, "ok")
              else ({ s with xlive := s.xlive.filter (fun t => t.id != i) }, "fail c16-collision-exit-wrong-peer"))
           else (s, if sent.isEmpty && x.isEmpty then "ok" else "fail " ++ tag s "phantom")
-    | ["err", k, p, i] =>
+    | "err" :: k :: p :: i :: rest =>
       let (p, i) := (p.toNat!, i.toNat!)
-      let r := checkFwd s k "err" (expectFwd s k p i false) sent
+      let r := checkFwd s k "err" (expectFwd s k p i false) sent (rest.headD "010203")
       let s' := removeLeg s k p i false
       match r with
       | some e => (s', "fail " ++ e)
